@@ -376,7 +376,7 @@ Theorem agent_put R prods h L : Inv lo (qcfg R prods) -> unb_ok R (UPut h L) -> 
     render (set_slots R (pad :: suffix)) = render (set_slots R (put_hdr (r_slots R) h L PAD)).
 Proof.
   intros HI Hu Hsafe. destruct (put_facts R prods h L HI Hu Hsafe) as (s1 & rest & PF & Eput).
-  destruct (after_pad lo (qcfg R prods) s1 rest L HI eq_refl (or_intror eq_refl) PF) as (swept & suffix & pad & Es & Hne & Hsw & Pt & Pp & Psp & HI' & Er).
+  destruct (after_pad lo (qcfg R prods) s1 rest L HI eq_refl (or_intror eq_refl) PF) as (swept & suffix & pad & Es & Hne & Hsw & Pt & Pp & Psp & _ & HI' & Er).
   cbn [qcfg g_ring g_cons g_prods] in *. destruct Hu as (-> & _).
   exists swept, suffix, pad. split; [exact Es |]. split; [exact Hne |]. split.
   { apply Forall_forall. intros s Hs. rewrite Forall_forall in Hsw. destruct (Hsw s Hs) as (A & B). split; [exact A |].
